@@ -213,7 +213,9 @@ impl DebugSession {
                 json!({ "reason": "removed", "source": info.source }),
             )?;
         }
-        let thread_ids: Vec<i64> = self.thread_cache.keys().copied().collect();
+        // the threads are gone with the process: forget them, or the next life of the debuggee
+        // (restart) would announce their exit a second time
+        let thread_ids: Vec<i64> = self.thread_cache.drain().map(|(id, _)| id).collect();
         for thread_id in thread_ids {
             self.send_event_body(
                 "thread",
